@@ -218,6 +218,27 @@ def all_obligations():
              expect=['delta window accepted by the table-driven decoder stays within', 'delta window rejected by the table-driven'],
              canaries=['CANARY delta accept path reached'], replayable=True, stream_replay='delta'))
 
+    # ---------------- encode.c collect(): one-step conformance with the greedy packing rule (C04 O4.1, C01 O1.1, C02 O2.4)
+    def collect_states(maxcap):
+        for cap in range(1, maxcap + 1):
+            for fill in range(0, cap):                       # a saved (non-full) state always has room for one more byte
+                ks = [0] + [k for k in (1, 2, 3) if k <= fill] + ([4, 5, 257, 258] if fill >= 4 else [])
+                for k in ks:
+                    yield cap, fill, k
+    for cap, fill, k in collect_states(8):
+        for nin in (1, 2, 3, 4):
+            if nin >= 3 and cap - fill > 2:
+                continue        # three or more symbolic bytes with room for all of them: symbolic execution of the goto-built machine does not finish (measured, > 600 s)
+            tier = 'quick' if (cap <= 6 and nin <= 3) else 'thorough'
+            A(Ob(name=f'encode.collect.M{cap}F{fill}K{k}N{nin}', props=['C04', 'C01'] + (['C02', 'C08'] if cap == 5 else []), kind='bounded', tier=tier, harness='h_collect.c', entry='h_collect_step',
+                 extra_srcs=['src/crctab.c'], defines={'CAP': str(cap), 'FILL': str(fill), 'RUNK': str(k), 'NIN': str(nin)},
+                 bound=f'block capacity {cap}, {fill} bytes already stored, pending run state {k}, {nin} symbolic input byte(s); block contents, run byte, CRC and in-use map symbolic',
+                 what='one call of the real collect() from this saved state consumes, stores, counts runs, updates CRC / in-use map / saved run state and reports "full" exactly as the '
+                      'greedy packing rule of C04 applied byte by byte (four copies + count, a fourth equal byte only if it and its count fit, runs cut at 259); block never exceeds capacity',
+                 functions=['collect'], flags=['--unwind', str(nin + 2), '--unwindset', ','.join(f'h_collect_step.{i}:258' for i in range(6)), '--unwinding-assertions'], timeout=600,
+                 expect=['collect consumes exactly the input bytes', 'block never exceeds its capacity', "collect reports 'block full' exactly"], replayable=True, replay_src='encode.c',
+                 assumed=['divbwt() stub (not called by collect)', 'saved states enumerated: every (capacity <= 8, fill, run state in {0..5,257,258}) a call can leave behind']))
+
     # ---------------- process.c I/O primitives
     POSIX_RW = ['read(): POSIX contract (-1 | 0 | 1..count), stored bytes not modelled', 'write(): POSIX contract (-1 | 1..count for count>0)',
                 'fail*/bailout are _Noreturn (stub: record + assume(0))']
